@@ -141,6 +141,7 @@ fn worker(timeout_ms: u64) {
         let mut evaluated = 0u64;
         let mut nviol = 0u64;
         let mut skipped = 0u64;
+        let mut too_long = 0u64;
         let mut nontrivial: HashMap<String, u64> = HashMap::new();
         let runs_before = ctx.runs;
         let mut o = stdout.lock();
@@ -182,7 +183,13 @@ fn worker(timeout_ms: u64) {
                     );
                 }
                 if let Some(s) = sess {
-                    let _ = writeln!(o, "{}", json!({"t": "session", "task": task["id"], "index": i, "flagged": !r.viols.is_empty(), "label": case.label, "cfg": cfg, "session": s}));
+                    // (a session nothing was flagged in is only recorded when TLC can be given it: texts of moderate length)
+                    let weight: usize = s["calls"].as_array().map(|cs| cs.iter().map(|c| c["in"].as_array().map_or(0, |a| a.len()) + c["out"].as_array().map_or(0, |a| a.len())).sum()).unwrap_or(0);
+                    if !r.viols.is_empty() || weight <= 40000 {
+                        let _ = writeln!(o, "{}", json!({"t": "session", "task": task["id"], "index": i, "flagged": !r.viols.is_empty(), "label": case.label, "cfg": cfg, "session": s}));
+                    } else {
+                        too_long += 1;
+                    }
                 }
             }
         }
@@ -191,7 +198,7 @@ fn worker(timeout_ms: u64) {
             o,
             "{}",
             json!({"t": "done", "task": task["id"], "suite": task["suite"], "evaluated": evaluated, "runs": ctx.runs - runs_before, "viols": nviol,
-                   "skipped_precondition": skipped, "nontrivial": nontrivial, "start": start, "end": end})
+                   "skipped_precondition": skipped, "sessions_too_long": too_long, "nontrivial": nontrivial, "start": start, "end": end})
         );
         let _ = o.flush();
     }
